@@ -32,7 +32,6 @@ ASSUMPTIONS = [
     'strip_whitespace=True: text is compared after the documented whitespace normalisation (trailing blanks before a newline, runs of newlines)',
     'script/style elements carry literal text without < and & only (substitution inside them is the exception the property states for html; their own content is the concern of C08/C09); no CDATA, no xml:space',
     'operands of Markup operators are str, Markup or objects with __html__ (domain of C18); boolean attributes and prefixed attribute names are not generated',
-    'py:attrs values that are blank after trimming are not generated (finding C01-attrs-blank-dropped)',
 ]
 
 METHODS = ['xml', 'xhtml', 'html']
@@ -362,6 +361,8 @@ def run(ctx):
     res.rule = ('templates drawn from a grammar nesting every substitution site x payload kinds x 3 methods x 2 strip settings x both '
                 'Markup implementations, plus the deterministic matrix of every site x every critical payload and every string of length <= 2 (quick) / 4 (thorough) over an 8-symbol critical alphabet at the core sites; non-trivial = some context value contains one of & < > "; distinct by (method, strip, template, data)')
     res.samples = res.samples[:6]
+    # the smallest failing case first: the framework shrinks and reports failures[0]
+    res.failures.sort(key=lambda f: (len(json.dumps(f['case'], sort_keys=True)), json.dumps(f['case'], sort_keys=True)))
     return res
 
 
